@@ -17,7 +17,8 @@ RULE = ("Files from per-format grammars (two-line and wrapped FASTA, FASTQ, BED3
         "and every combination of the four flags. Sampled remainder: Hypothesis files of up to 60 records with k biased to divisors of "
         "the file size, record sizes +-1 and record boundaries, a quarter of them with a max_chunk_size. Oracle: rows of all delivered chunks concatenated == rows of read() of the "
         "same bytes; no empty chunk delivered; raising is allowed only when k is smaller than the longest record; for a third of the chunk sizes "
-        "that give 3 to 5 chunks, np.concatenate of the (untouched) chunk tables must also have the rows of read(). "
+        "that give 3 to 5 chunks, np.concatenate of the (untouched) chunk tables must also have the rows of read(); in a third of the sampled cases one to three chunks "
+        "are taken with read_chunk and the remainder with read(), which together must be the whole file as well. "
         "Non-trivial: k < file size (at least two raw reads). Distinct: by the whole case.")
 ASSUMPTIONS = [
     "Generated files are well formed by the format definitions; spellings are canonical so read() itself is not in question here (C02 checks it).",
@@ -25,7 +26,7 @@ ASSUMPTIONS = [
     "An exception is tolerated only if k is smaller than the byte length of the longest record including its line ends, or if a max_chunk_size was given that is smaller than file size + k + 2 (the documented 'no complete entry found' limit).",
 ]
 REQUIRED_CLASSES = ["k-divides-size", "no-final-newline", "gzip", "crlf", "lazy", "eager", "k-lt-size", "via-path", "max-chunk-size-given",
-                    "max-chunk-size-never-reached"]
+                    "max-chunk-size-never-reached", "chunks-then-read-gzip"]
 BOUNDS = {
     "quick": "core: widths {1,2}, up to 3 records, all 10 formats, all k in 1..size+2, all 16 flag combinations (every 4th case from each of 4 offsets = complete), plus a 1-in-8 stride sample of the same core with widths {1,5}; 40 sampled files for each of 16 formats",
     "thorough": "core: widths {1,2,5}, up to 4 records, all 10 formats, all k, all 16 flag combinations; 500 sampled files for each of 16 formats",
@@ -119,6 +120,8 @@ def classify(case):
     cl.append("lazy" if case.get("lazy") else "eager")
     if case.get("via_path"):
         cl.append("via-path")
+    if case.get("then_read") and not case.get("via_path"):
+        cl.append("chunks-then-read" + ("-gzip" if case.get("gzip") else ""))
     if case.get("max_k") is not None:
         cl.append("max-chunk-size-given")
         if case["max_k"] >= size + k + 2:
@@ -178,6 +181,24 @@ def check(case, stats=None):
                                                    "diff": formats.first_row_diff(whole, rows, 0), "chunk_sizes": sizes}))
     if any(s == 0 for s in sizes):
         out.append(Failure(f"C01:empty-chunk:{tag}", {"chunk_sizes": sizes}))
+    if not out and case.get("then_read") and not case.get("via_path") and not raise_allowed(case):
+        # a few chunks taken one at a time, then the remainder with read(): together they are the whole file too
+        try:
+            rd = _reader(data, case, fmt)
+            mixed = []
+            for _ in range(case["then_read"]):
+                c = rd.read_chunk(min_chunk_size=case["k"])
+                if c is None or len(c) == 0:
+                    break
+                mixed.extend(formats.table_rows(c))
+            rest = rd.read()
+            if rest is not None:
+                mixed.extend(formats.table_rows(rest))
+        except Exception as e:
+            return [Failure(f"C01:chunks-then-read-raised:{tag}:{type(e).__name__}", {"error": repr(e)[:300], "k": case["k"], "chunks_first": case["then_read"], "gzip": bool(case.get("gzip"))})]
+        if not formats.rows_equal(whole, mixed, ulps=0):
+            out.append(Failure(f"C01:chunks-then-read-differs:{tag}", {"k": case["k"], "chunks_first": case["then_read"], "n_whole": len(whole), "n_got": len(mixed),
+                                                                       "diff": formats.first_row_diff(whole, mixed, 0)}))
     if not out and 3 <= len(sizes) <= 5 and case["k"] % 3 == 0 and not case.get("via_path"):
         # the chunks joined by the library itself (np.concatenate of the chunk tables, untouched before) must be the whole read too
         try:
@@ -215,7 +236,10 @@ def core_cases(fmt, widths, max_records, stride=1, offset=0):
                             n += 1
                             if (n + offset) % stride:
                                 continue
-                            yield dict(c0, k=k, gzip=gz, lazy=lazy)
+                            c = dict(c0, k=k, gzip=gz, lazy=lazy)
+                            if n % 3 == 0:
+                                c["then_read"] = 1 + (n // 3) % 2       # one or two chunks, then read() for the rest
+                            yield c
 
 
 def task_core(stats, known_open, fmt, widths, max_records, stride=1, offset=0):
@@ -251,6 +275,8 @@ def sampled_case(draw, fmt, max_records, W):
     case.update(k=k, gzip=draw(st.booleans()), lazy=draw(st.booleans()))
     if draw(st.integers(0, 9)) == 0:
         case["via_path"] = True
+    if draw(st.integers(0, 2)) == 0:
+        case["then_read"] = draw(st.integers(1, 3))
     if draw(st.integers(0, 3)) == 0:
         # an upper limit on the bytes gathered for one chunk: far above what can be gathered, just above the longest record, or anything
         case["max_k"] = draw(st.one_of(st.just(size + k + 2), st.integers(size + k + 2, 2 * size + 2 * k + 4), st.integers(1, size + k + 2),
@@ -267,14 +293,15 @@ def task_sampled(stats, known_open, fmt, n, seed, max_records, W):
 def tasks(tier, seed):
     out = []
     if tier == "quick":
+        # (the sampled files first: they are the cheaper and the more varied part, and must not be the part a time budget cuts off)
+        for i, fmt in enumerate(FMTS + SAMPLED_ONLY):
+            out.append(("task_sampled", dict(fmt=fmt, n=40, seed=seed * 1000 + i, max_records=20, W=20)))
         for fmt in FMTS:
             for off in range(4):
                 out.append(("task_core", dict(fmt=fmt, widths=[1, 2], max_records=3, stride=4, offset=off)))
             # very unequal field widths in one column (a one-character field at the start of a chunk, a five-character one later in it)
             for off in range(2):
                 out.append(("task_core", dict(fmt=fmt, widths=[1, 5], max_records=3, stride=16, offset=off * 8 + 1)))
-        for i, fmt in enumerate(FMTS + SAMPLED_ONLY):
-            out.append(("task_sampled", dict(fmt=fmt, n=40, seed=seed * 1000 + i, max_records=20, W=20)))
     else:
         for fmt in FMTS:
             for off in range(16):
